@@ -21,7 +21,8 @@ NAME_STYLES = [
     lambda n: ["a b", "a.b", "Z", "z", "_", "é", "0", "~", "a", "B"][:n],
     lambda n: ["a", "ab", "bc", "c", "b", "abc", "ca", "1", "12", "2"][:n],     # prefix-related names: different sets of names can concatenate to the same string
     lambda n: ["", " ", "x", "  ", "\t", "y", " x", "x ", "0", "None"][:n],         # empty and blank names, names that differ only by surrounding blanks
-    lambda n: ["a", "b-c", "a-b", "c", "v1", "v01", "x7y", "x07y", "1", "01"][:n],  # separators inside names (joined labels collide), numbers that differ by leading zeros
+    lambda n: ["a", "b-c", "a-b", "c", "x", "y-z", "x-y", "z", "p", "p-"][:n],      # separators inside names: joined labels of different pairs collide
+    lambda n: ["v1", "v01", "1", "01", "x7y", "x07y", "v10", "v010", "007", "7"][:n],  # numbers that differ only by leading zeros
 ]
 def confusable_sets(names, maxsize=3):
     """groups of different vertex-id sets whose sorted names concatenate to the same string (keys built by joining names confuse them)"""
@@ -147,6 +148,19 @@ def random_connected_graph(rng, nmin=1, nmax=6, multi=True, large_ok=False):
     perm = list(range(n)); rng.shuffle(perm)
     e = [(perm[i], perm[j], k) for i, j, k in e]
     return mk_graph(n, e, rng), fam
+
+def thin_cut_game(rng):
+    """two dense clusters (no vertex of small valence) joined by a thin cut, and a sparse divisor: a little debt and a little wealth near the cut"""
+    a = rng.choice([2, 3, 3, 4]); b = rng.choice([2, 3, 3, 4]); n = a + b
+    km = rng.choice([1, 2, 2, 3])          # multiplicity inside the clusters
+    e = [(i, j, km) for i in range(a) for j in range(i + 1, a)] + [(a + i, a + j, km) for i in range(b) for j in range(i + 1, b)]
+    cut = rng.choice([1, 1, 2])
+    e.append((a - 1, a, cut))
+    if rng.random() < 0.3 and a >= 2 and b >= 2: e.append((0, n - 1, 1))
+    G = mk_graph(n, e, rng)
+    D = [0] * n
+    for _ in range(rng.randint(1, 3)): D[rng.choice([a - 1, a, rng.randrange(n)])] += rng.choice([-2, -1, -1, 1, 1, 2])
+    return G, D
 
 def scale_game(rng, G, D):
     """the same game scaled beyond 2^53: every multiplicity times M, every chip count times M plus a small offset (exact integers needed)"""
